@@ -135,6 +135,12 @@ impl Prop for C01 {
                 out.push(Case::search(Sexp::app("rtbin", vec![Sexp::atom(format.name()), Sexp::atom(format!("{game}")), Sexp::list(vec![]), Sexp::int(bits), Sexp::int(width as i64), Sexp::atom(hex(&bytes))])).tag(format!("bundled-{name}")));
             }
         }
+        // stack ECL (TH10+): include lists (ASCII and non-ASCII names) and raw instructions
+        for _ in 0..80 * scale {
+            let game = *rng.pick(&[truth::Game::Th10, truth::Game::Th12, truth::Game::Th14, truth::Game::Th17]);
+            let g = gensrc::gen_ecl10(rng, game);
+            out.push(Case::search(Sexp::app("rt", vec![Sexp::atom(g.format.name()), Sexp::atom(format!("{}", g.game)), Sexp::list(vec![]), Sexp::int(rng.below(32) as i64), Sexp::int(99), Sexp::str(g.text.clone())])).tag("generated-stack-ecl"));
+        }
         // intrinsic instructions spelled as raw calls with arbitrary operands (the decompiler's sugar must recompile to them)
         for _ in 0..300 * scale {
             let g = gensrc::gen_raw_intrinsics(rng);
